@@ -221,4 +221,235 @@ theorem removeEntryLinks_not_key {L : LinkMap} {id : Nat} (h : id ∉ keys L) : 
   have : kl.1 ≠ id := fun e => h (e ▸ hk)
   simpa using this
 
+
+/-! ### a new node below existing parents (`_record_ancestors`) -/
+
+theorem mem_insertNew {α} [DecidableEq α] (l : List α) (a x : α) : x ∈ insertNew l a ↔ x ∈ l ∨ x = a := by
+  unfold insertNew
+  split
+  · constructor
+    · exact Or.inl
+    · rintro (h | h)
+      · exact h
+      · rw [h]; assumption
+  · simp
+
+theorem nodup_insertNew {α} [DecidableEq α] (l : List α) (a : α) (h : l.Nodup) : (insertNew l a).Nodup := by
+  unfold insertNew
+  split
+  · exact h
+  · rename_i hn
+    refine List.nodup_append.mpr ⟨h, by simp, ?_⟩
+    intro x hx y hy hxy
+    have : y = a := by simpa using hy
+    exact hn (this ▸ hxy ▸ hx)
+
+def addNodeLinks (L : LinkMap) (E : Nat) (P : List Nat) : LinkMap :=
+  ((modLink L P fun l => { l with children := insertNew l.children E }).filter (·.1 ≠ E)) ++
+    [(E, { parents := P, children := [] })]
+
+theorem linkOf_addNodeLinks (L : LinkMap) (E : Nat) (P : List Nat) (x : Nat) :
+    linkOf (addNodeLinks L E P) x =
+      if x = E then some { parents := P, children := [] }
+      else (linkOf L x).map fun l => if x ∈ P then { l with children := insertNew l.children E } else l := by
+  unfold addNodeLinks
+  rw [linkOf_append_single _ _ _ _ (by rw [linkOf_filter_ne]; simp)]
+  by_cases hx : x = E
+  · simp [hx]
+  · simp only [hx, if_false]
+    rw [linkOf_filter_ne, linkOf_modLink]
+    simp [hx]
+
+theorem parentsOf_addNodeLinks (L : LinkMap) (E : Nat) (P : List Nat) (x : Nat) :
+    parentsOf (addNodeLinks L E P) x = if x = E then P else parentsOf L x := by
+  rw [parentsOf_eq, linkOf_addNodeLinks, parentsOf_eq]
+  by_cases hx : x = E
+  · simp [hx]
+  · simp only [hx, if_false]
+    cases linkOf L x with
+    | none => rfl
+    | some l => by_cases hp : x ∈ P <;> simp [hp]
+
+theorem childrenOf_addNodeLinks (L : LinkMap) (E : Nat) (P : List Nat) (x : Nat) :
+    childrenOf (addNodeLinks L E P) x =
+      if x = E then [] else if x ∈ P then (linkOf L x).elim [] (fun l => insertNew l.children E) else childrenOf L x := by
+  rw [childrenOf_eq, linkOf_addNodeLinks, childrenOf_eq]
+  by_cases hx : x = E
+  · simp [hx]
+  · simp only [hx, if_false]
+    cases linkOf L x with
+    | none => by_cases hp : x ∈ P <;> simp [hp]
+    | some l => by_cases hp : x ∈ P <;> simp [hp]
+
+theorem keys_addNodeLinks (L : LinkMap) (E : Nat) (P : List Nat) (hE : E ∉ keys L) :
+    keys (addNodeLinks L E P) = keys L ++ [E] := by
+  unfold addNodeLinks
+  have : ∀ M : LinkMap, keys (M ++ [(E, ({ parents := P, children := [] } : Links))]) = keys M ++ [E] := by
+    intro M; simp [keys]
+  rw [this, keys_filter_ne, keys_modLink]
+  congr 1
+  apply List.filter_eq_self.mpr
+  intro a ha
+  have : a ≠ E := fun e => hE (e ▸ ha)
+  simpa using this
+
+theorem LinkStruct.addNode {L : LinkMap} (h : LinkStruct L) {E : Nat} {P : List Nat} (hE : E ∉ Pool.keys L)
+    (hP : ∀ p ∈ P, p ∈ Pool.keys L) (hn : P.Nodup) : LinkStruct (addNodeLinks L E P) := by
+  have hEP : E ∉ P := fun hm => hE (hP E hm)
+  have hch : ∀ x, x ∈ P → childrenOf (addNodeLinks L E P) x = insertNew (childrenOf L x) E := by
+    intro x hx
+    have hxE : x ≠ E := fun e => hEP (e ▸ hx)
+    rw [childrenOf_addNodeLinks]
+    simp only [hxE, if_false, hx, if_true]
+    have hk := (mem_keys_iff L x).mp (hP x hx)
+    rw [childrenOf_eq]
+    cases hl : linkOf L x with
+    | none => rw [hl] at hk; simp at hk
+    | some l => rfl
+  constructor
+  · rw [keys_addNodeLinks L E P hE]
+    refine List.nodup_append.mpr ⟨h.keys, by simp, ?_⟩
+    intro a ha b hb hab
+    have : b = E := by simpa using hb
+    exact hE (this ▸ hab ▸ ha)
+  · intro p c
+    rw [parentsOf_addNodeLinks]
+    by_cases hc : c = E
+    · subst hc
+      simp only [if_true]
+      by_cases hp : p ∈ P
+      · rw [hch p hp]; simp [hp, mem_insertNew]
+      · have hpE : p = c ∨ p ≠ c := Decidable.em _
+        rcases hpE with e | e
+        · subst e; rw [childrenOf_addNodeLinks]; simp [hp]
+        · rw [childrenOf_addNodeLinks]
+          simp only [e, if_false, hp]
+          constructor
+          · intro x; exact x.elim
+          · intro x
+            have := (h.sym p c).mpr x
+            rw [parentsOf_nil_of_not_key hE] at this; cases this
+    · simp only [hc, if_false]
+      by_cases hpE : p = E
+      · subst hpE
+        rw [childrenOf_addNodeLinks, if_pos rfl]
+        constructor
+        · intro x; exact absurd (h.parent_key x).1 hE
+        · intro x; cases x
+      · by_cases hp : p ∈ P
+        · rw [hch p hp, mem_insertNew]
+          constructor
+          · intro x; exact Or.inl ((h.sym p c).mp x)
+          · rintro (x | x)
+            · exact (h.sym p c).mpr x
+            · exact absurd x hc
+        · rw [childrenOf_addNodeLinks]; simp only [hpE, if_false, hp]
+          exact h.sym p c
+  · intro x
+    rw [parentsOf_addNodeLinks]
+    split
+    · exact hn
+    · exact h.ndP x
+  · intro x
+    by_cases hx : x ∈ P
+    · rw [hch x hx]; exact nodup_insertNew _ _ (h.ndC x)
+    · rw [childrenOf_addNodeLinks]
+      split
+      · exact List.nodup_nil
+      · rw [if_neg hx]; exact h.ndC x
+
+/-! ### existing nodes hung below a node (`record_entry_descendants` with pooled children) -/
+
+def linkChildren (L : LinkMap) (E : Nat) (C : List Nat) : LinkMap :=
+  modLink (modLink L C fun l => { l with parents := insertNew l.parents E }) [E]
+    fun l => { l with children := C.foldl insertNew l.children }
+
+theorem mem_foldl_insertNew {α} [DecidableEq α] (C l : List α) (x : α) :
+    x ∈ C.foldl insertNew l ↔ x ∈ l ∨ x ∈ C := by
+  induction C generalizing l with
+  | nil => simp
+  | cons a C ih =>
+    simp only [List.foldl_cons, List.mem_cons]
+    rw [ih, mem_insertNew]
+    constructor
+    · rintro ((h | h) | h)
+      · exact Or.inl h
+      · exact Or.inr (Or.inl h)
+      · exact Or.inr (Or.inr h)
+    · rintro (h | h | h)
+      · exact Or.inl (Or.inl h)
+      · exact Or.inl (Or.inr h)
+      · exact Or.inr h
+
+theorem nodup_foldl_insertNew {α} [DecidableEq α] (C l : List α) (h : l.Nodup) : (C.foldl insertNew l).Nodup := by
+  induction C generalizing l with
+  | nil => exact h
+  | cons a C ih => exact ih _ (nodup_insertNew _ _ h)
+
+theorem parentsOf_linkChildren (L : LinkMap) (E : Nat) (C : List Nat) (x : Nat) :
+    parentsOf (linkChildren L E C) x = if x ∈ C then (linkOf L x).elim [] (fun l => insertNew l.parents E) else parentsOf L x := by
+  rw [parentsOf_eq]
+  unfold linkChildren
+  rw [linkOf_modLink, linkOf_modLink, parentsOf_eq]
+  cases linkOf L x with
+  | none => by_cases hc : x ∈ C <;> simp [hc]
+  | some l =>
+    by_cases he : x = E
+    · subst he; by_cases hc : x ∈ C <;> simp [hc]
+    · by_cases hc : x ∈ C <;> simp [hc, he]
+
+theorem childrenOf_linkChildren (L : LinkMap) (E : Nat) (C : List Nat) (x : Nat) :
+    childrenOf (linkChildren L E C) x = if x = E then (linkOf L x).elim [] (fun l => C.foldl insertNew l.children) else childrenOf L x := by
+  rw [childrenOf_eq]
+  unfold linkChildren
+  rw [linkOf_modLink, linkOf_modLink, childrenOf_eq]
+  cases linkOf L x with
+  | none => by_cases he : x = E <;> simp [he]
+  | some l =>
+    by_cases he : x = E
+    · subst he; by_cases hc : x ∈ C <;> simp [hc]
+    · by_cases hc : x ∈ C <;> simp [hc, he]
+
+theorem keys_linkChildren (L : LinkMap) (E : Nat) (C : List Nat) : keys (linkChildren L E C) = keys L := by
+  unfold linkChildren; rw [keys_modLink, keys_modLink]
+
+theorem LinkStruct.linkChildren {L : LinkMap} (h : LinkStruct L) {E : Nat} {C : List Nat} (hE : E ∈ Pool.keys L)
+    (hC : ∀ c ∈ C, c ∈ Pool.keys L) : LinkStruct (linkChildren L E C) := by
+  have hpar : ∀ x, x ∈ C → parentsOf (Pool.linkChildren L E C) x = insertNew (parentsOf L x) E := by
+    intro x hx
+    rw [parentsOf_linkChildren]; simp only [hx, if_true]
+    have hk := (mem_keys_iff L x).mp (hC x hx)
+    rw [parentsOf_eq]
+    cases hl : linkOf L x with
+    | none => rw [hl] at hk; simp at hk
+    | some l => rfl
+  have hchE : childrenOf (Pool.linkChildren L E C) E = C.foldl insertNew (childrenOf L E) := by
+    rw [childrenOf_linkChildren]; simp only [if_true]
+    have hk := (mem_keys_iff L E).mp hE
+    rw [childrenOf_eq]
+    cases hl : linkOf L E with
+    | none => rw [hl] at hk; simp at hk
+    | some l => rfl
+  constructor
+  · rw [keys_linkChildren]; exact h.keys
+  · intro p c
+    by_cases hc : c ∈ C
+    · rw [hpar c hc, mem_insertNew]
+      by_cases hp : p = E
+      · subst hp; rw [hchE, mem_foldl_insertNew]; simp [hc]
+      · rw [childrenOf_linkChildren]; simp only [hp, if_false, or_false]
+        exact h.sym p c
+    · rw [parentsOf_linkChildren]; simp only [hc, if_false]
+      by_cases hp : p = E
+      · subst hp; rw [hchE, mem_foldl_insertNew]; simp only [hc, or_false]; exact h.sym p c
+      · rw [childrenOf_linkChildren]; simp only [hp, if_false]; exact h.sym p c
+  · intro x
+    by_cases hx : x ∈ C
+    · rw [hpar x hx]; exact nodup_insertNew _ _ (h.ndP x)
+    · rw [parentsOf_linkChildren]; simp only [hx, if_false]; exact h.ndP x
+  · intro x
+    by_cases hx : x = E
+    · subst hx; rw [hchE]; exact nodup_foldl_insertNew _ _ (h.ndC x)
+    · rw [childrenOf_linkChildren]; simp only [hx, if_false]; exact h.ndC x
+
 end CkbVerif.Pool
